@@ -137,6 +137,58 @@ def c_resample(ctx, args):
     return None
 
 
+def c_resample_circuit(ctx, args):
+    """circuits of unspecified gates -- built with .gate() on either circuit class, or by the brick-wall / on-site / global constructors -- draw a fresh Clifford for EVERY gate
+    at EVERY forward, backward or povm call, in any order of calls, store nothing, and always leave a valid state"""
+    kind, N, seed, hist = args
+    calls = []
+    orig = CI.random_clifford_map
+
+    def wrapped(n):
+        calls.append(n)
+        return orig(n)
+    CI.random_clifford_map = wrapped
+    try:
+        NP.seed_numba(seed)
+        if kind == 'brickwall':
+            c = pc.brickwall_rcc(N, 2)
+        elif kind == 'onsite':
+            c = pc.onsite_rcc(N)
+        elif kind == 'global':
+            c = pc.global_rcc(N)
+        else:
+            c = CI.CliffordCircuit(N) if kind == 'CliffordCircuit' else CI.Circuit(N)
+            rr = __import__('random').Random(seed)
+            for _ in range(rr.randint(1, 4)):
+                c.gate(*rr.sample(range(N), rr.randint(1, min(N, 2))))
+        gates = [g for layer in c.layers_forward() for g in getattr(layer, 'gates', [])]
+        expected = 0
+        outs = []
+        for h in hist:
+            s = pc.zero_state(N)
+            if h == 'F':
+                c.forward(s)
+            elif h == 'B':
+                c.backward(s)
+            else:
+                s = list(c.povm(1))[0]
+            expected += len(gates)
+            got = NP.oST(s)
+            inv = S.tableau_invariant_py(got)
+            if inv:
+                return {'kind': 'oracle', 'where': 'np:%s random circuit left an invalid state (%s)' % (kind, inv), 'observed': got, 'expected': 'a valid state', 'tags': ['resample_circuit']}
+            outs.append(str(got))
+    finally:
+        CI.random_clifford_map = orig
+    if len(calls) != expected:
+        return {'kind': 'oracle', 'where': 'np:%s: unspecified gates are not resampled at every call (history %s)' % (kind, hist), 'observed': len(calls), 'expected': expected, 'tags': ['resample_circuit']}
+    if any(g.forward_map is not None or g.backward_map is not None or g.generator is not None for g in gates):
+        return {'kind': 'oracle', 'where': 'np:%s: an unspecified gate stored a map after history %s' % (kind, hist), 'observed': 'map stored', 'expected': 'nothing stored', 'tags': ['resample_circuit']}
+    if len(hist) >= 5 and N >= 2 and len(set(outs)) < 2:
+        return {'kind': 'oracle', 'where': 'np:%s: %d runs gave one and the same state' % (kind, len(hist)), 'observed': outs[0], 'expected': 'varying states', 'tags': ['resample_circuit']}
+    return None
+
+
 def c_chi2(ctx, args):
     """support only: distribution of random_clifford over the symplectic group for N=1 (6 classes) / N=2 (720 classes)"""
     N, nsamp, seed = args
@@ -225,7 +277,7 @@ def c_chi2_rows(ctx, args):
     return None
 
 
-CHECKS = {'chi2_rows': c_chi2_rows, 'chi2_product': c_chi2_product, 'pair': c_pair, 'clifford': c_clifford, 'maps_states': c_maps_states, 'resample': c_resample, 'chi2': c_chi2, 'coin_fair': __import__('props.C06', fromlist=['c_coin_fair']).c_coin_fair}
+CHECKS = {'resample_circuit': c_resample_circuit, 'chi2_rows': c_chi2_rows, 'chi2_product': c_chi2_product, 'pair': c_pair, 'clifford': c_clifford, 'maps_states': c_maps_states, 'resample': c_resample, 'chi2': c_chi2, 'coin_fair': __import__('props.C06', fromlist=['c_coin_fair']).c_coin_fair}
 
 
 def run(ctx):
@@ -245,6 +297,8 @@ def run(ctx):
         ctx.res.count('%s_%s' % (be, what))
     for it in range(int(20 * B)):
         do(ctx, 'resample', [rng.randint(1, 3), rng.randrange(10 ** 6)], nontrivial=('r', it))
+        kind = ['CliffordCircuit', 'Circuit', 'brickwall', 'onsite', 'global'][it % 5]
+        do(ctx, 'resample_circuit', [kind, 2 * rng.randint(1, 2), rng.randrange(10 ** 6), ''.join(rng.choice('FBP') for _ in range(rng.randint(2, 6)))], nontrivial=('rc', it))
     if not getattr(ctx, 'is_worker', False):
         do(ctx, 'chi2', [1, 3000 if ctx.tier == 'quick' else 60000, 11], nontrivial='chi1')
     if not getattr(ctx, 'is_worker', False):
